@@ -135,8 +135,10 @@ def run_configs(ctx, configs, nontrivial_keys, rule, assumptions,
                     'on the canonical state')
     cov['impl_exceptions'] = impl_exc
     # vacuity guard: a run in which the antecedent never fired proves nothing
+    # (only for a silent run: a run that found violations is not vacuous, and
+    # a changed implementation may legitimately starve one of the counters)
     for k in nontrivial_keys:
-        if cov['nontrivial_counters'].get(k, 0) == 0:
+        if cov['nontrivial_counters'].get(k, 0) == 0 and not violations:
             raise statex.HarnessError('vacuous run: counter %s is 0' % k)
     return {'coverage': cov, 'violations': violations,
             'assumptions': assumptions}
